@@ -30,13 +30,15 @@ structure KRel (R : KState ℚ σ → KState ℚ σ → Prop) : Prop where
   newLabelled : ∀ s (r : EvRec ℚ), r.req = none → R s (s.newLabelled r).1
   /-- a fresh request event; its amount is never negative (`ContainerPut/Get` refuse `amount <= 0`) -/
   newReq : ∀ s (r : EvRec ℚ) (rq : ReqData ℚ), r.req = some rq → 0 ≤ rq.amount → R s (s.newLabelled r).1
-  schedule : ∀ s e p (d : ℚ), 0 ≤ d → R s (s.schedule e p d)
+  /-- `Environment.schedule`; URGENT entries are always scheduled for the current instant -/
+  schedule : ∀ s e p (d : ℚ), 0 ≤ d → (p = URGENT → d = 0) → R s (s.schedule e p d)
   setOut : ∀ s e o, R s (s.setOut e o)
   defuse : ∀ s e, R s (s.defuse e)
   bumpCount : ∀ s c, R s (s.bumpCount c)
   setUsage : ∀ s e, R s (s.setUsage e)
   eraseCb : ∀ s e cb, R s (s.eraseCb e cb)
-  addCb : ∀ s e cb, R s (s.addCb e cb)
+  /-- `callbacks.append(cb)`; the model itself never registers `StopSimulation.callback` (only `run(until=…)` does) -/
+  addCb : ∀ s e cb, cb ≠ Cb.stop → R s (s.addCb e cb)
   -- resources
   eraseUser : ∀ s r w, R s (s.setUsers r ((s.res r).users.erase w))
   addUser : ∀ s r e, isResKind (s.res r).kind = true → hasRoom (s.res r).capacity (s.res r).users.length = true →
@@ -60,7 +62,7 @@ include K
 
 theorem trigger (s : KState ℚ σ) (e : EvId) (o : Outcome) : R s (s.trigger e o) := by
   unfold KState.trigger
-  exact K.trans (K.setOut s e o) (K.schedule _ _ _ _ (by rw [zero_eq']))
+  exact K.trans (K.setOut s e o) (K.schedule _ _ _ _ (by rw [zero_eq']) (fun h => absurd h (by decide)))
 
 theorem mkInterrupt (s : KState ℚ σ) (p : EvId) (c : Val) : R s (mkInterrupt s p c).1 := by
   unfold _root_.mkInterrupt
@@ -68,7 +70,7 @@ theorem mkInterrupt (s : KState ℚ σ) (p : EvId) (c : Val) : R s (mkInterrupt 
   · exact K.refl s
   · split
     · exact K.refl s
-    · exact K.trans (K.newEv s _ rfl) (K.schedule _ _ _ _ (by rw [zero_eq']))
+    · exact K.trans (K.newEv s _ rfl) (K.schedule _ _ _ _ (by rw [zero_eq']) (fun _ => zero_eq'))
 
 theorem preemptStep (s : KState ℚ σ) (r : ResId) (e : EvId) : R s (preemptStep s r e) := by
   unfold _root_.preemptStep
@@ -243,11 +245,11 @@ theorem mkCond (s : KState ℚ σ) (all : Bool) (ops : List EvId) : R s (mkCond 
   simp only
   split
   · exact K.trans (K.newLabelled s _ rfl) (K.trigger _ _ _)
-  · refine K.trans (K.trans (K.newLabelled s _ rfl) (K.foldl _ ?_ _ _)) (K.addCb _ _ _)
+  · refine K.trans (K.trans (K.newLabelled s _ rfl) (K.foldl _ ?_ _ _)) (K.addCb _ _ _ (by simp))
     intro s e
     split
     · exact K.condCheck _ _ _
-    · exact K.addCb _ _ _
+    · exact K.addCb _ _ _ (by simp)
 
 theorem doCall (s : KState ℚ σ) (self : EvId) (c : Call ℚ σ) : R s (doCall s self c).1 := by
   cases c <;> simp only [_root_.doCall]
@@ -255,13 +257,14 @@ theorem doCall (s : KState ℚ σ) (self : EvId) (c : Call ℚ σ) : R s (doCall
     split
     · exact K.refl s
     · rename_i hd
-      exact K.trans (K.newLabelled s _ rfl) (K.schedule _ _ _ _ (by rw [zero_eq'] at hd; exact not_lt.mp hd))
+      exact K.trans (K.newLabelled s _ rfl) (K.schedule _ _ _ _ (by rw [zero_eq'] at hd; exact not_lt.mp hd)
+        (fun h => absurd h (by decide)))
   case event => exact K.newLabelled s _ rfl
   case succeed e v => split <;> first | exact K.refl s | exact K.trigger s _ _
   case fail e x => split <;> first | exact K.refl s | exact K.trigger s _ _
   case spawn st =>
     exact K.trans (K.trans (K.trans (K.newLabelled s _ rfl) (K.newEv _ _ rfl))
-      (K.schedule _ _ _ _ (by rw [zero_eq']))) (K.setProc _ _ _)
+      (K.schedule _ _ _ _ (by rw [zero_eq']) (fun _ => zero_eq'))) (K.setProc _ _ _)
   case interrupt p cause =>
     split
     · exact K.refl s
@@ -269,7 +272,7 @@ theorem doCall (s : KState ℚ σ) (self : EvId) (c : Call ℚ σ) : R s (doCall
       generalize _root_.mkInterrupt s p cause = r at this ⊢
       obtain ⟨s1, o⟩ := r
       cases o <;> exact this
-  case probe e tag => split <;> first | exact K.refl s | exact K.addCb s _ _
+  case probe e tag => split <;> first | exact K.refl s | exact K.addCb s _ _ (by simp)
   case cond all ops => exact K.mkCond s all ops
   case request r prio pre =>
     split
@@ -341,7 +344,7 @@ theorem register (s s' : KState ℚ σ) (p e' : EvId) (h : register s p e' = som
   split at h
   · cases h
   · cases h
-    exact K.trans (K.addCb s _ _) (K.active _ _)
+    exact K.trans (K.addCb s _ _ (by simp)) (K.active _ _)
 
 theorem resume (body : σ → Resume → Burst ℚ σ) (p : EvId) (fuel : Nat) (e : EvId) (s : KState ℚ σ) :
     R s (resume body p fuel e s) := by
